@@ -70,19 +70,22 @@ Record adj := mkAdj { a_amt : t; a_fee : t; a_stale : bool }.
 (* ------------------------------------------------------------------ *)
 Definition cell_at (i : nat) (l : list cell) : cell := nth i l None.
 
-(* SecurityBase.update.  The flag says whether the early return was taken. *)
-Definition sec_update_base (date : option nat) (inow : nat) (s : sec) : result sec :=
-  if onat_eqb date (s_now s) && (s_lastpos s =? s_pos s) then Ok s else
-  let s :=
-    if onat_eqb date (s_now s) then s else
-    let s := set_s_now date s in
-    let s := match s_prices s with
-             | Some ps => set_s_price (cell_at inow ps) s
-             | None => s
-             end in
-    if s_bo_set s
-    then set_s_bidoffer_paid 0 (set_s_bidoffer (cell_at inow (s_bidoffers s)) s)
-    else s in
+(* SecurityBase.update, split into its phases (each has its own frame lemmas) *)
+
+(* date change: clock, price, bid/offer *)
+Definition sec_roll (date : option nat) (inow : nat) (s : sec) : sec :=
+  if onat_eqb date (s_now s) then s else
+  let s := set_s_now date s in
+  let s := match s_prices s with
+           | Some ps => set_s_price (cell_at inow ps) s
+           | None => s
+           end in
+  if s_bo_set s
+  then set_s_bidoffer_paid 0 (set_s_bidoffer (cell_at inow (s_bidoffers s)) s)
+  else s.
+
+(* position row, value, notional *)
+Definition sec_mark (inow : nat) (s : sec) : result sec :=
   let s := set_h_positions (upd inow (s_pos s) (h_positions s)) s in
   let s := set_s_lastpos (s_pos s) s in
   v <- match s_price s with
@@ -92,15 +95,48 @@ Definition sec_update_base (date : option nat) (inow : nat) (s : sec) : result s
   let s := set_s_value v s in
   let s := set_s_notl v s in
   let s := set_h_values (upd inow v (h_values s)) s in
-  let s := set_h_notls (upd inow v (h_notls s)) s in
-  let s := if is_zero (s_weight s) && is_zero (s_pos s) then set_s_needupdate false s else s in
+  Ok (set_h_notls (upd inow v (h_notls s)) s).
+
+(* "if is_zero(self._weight) and is_zero(self._position): self._needupdate = False" *)
+Definition sec_flag (s : sec) : sec :=
+  if is_zero (s_weight s) && is_zero (s_pos s) then set_s_needupdate false s else s.
+
+(* flush the outlay accumulator into the row; bid/offer paid row *)
+Definition sec_flush (inow : nat) (s : sec) : sec :=
   let s := if negb (s_outlay s =? 0)
            then set_s_outlay 0 (set_h_outlays (upd inow (nth inow (h_outlays s) 0 + s_outlay s) (h_outlays s)) s)
            else s in
-  let s := if s_bo_set s then set_h_bopaid (upd inow (s_bidoffer_paid s) (h_bopaid s)) s else s in
-  Ok s.
+  if s_bo_set s then set_h_bopaid (upd inow (s_bidoffer_paid s) (h_bopaid s)) s else s.
+
+Definition sec_early (date : option nat) (s : sec) : bool :=
+  onat_eqb date (s_now s) && (s_lastpos s =? s_pos s).
+
+Definition sec_update_base (date : option nat) (inow : nat) (s : sec) : result sec :=
+  if sec_early date s then Ok s else
+  s <- sec_mark inow (sec_roll date inow s) ;;
+  Ok (sec_flush inow (sec_flag s)).
 
 (* the coupon / holding-cost tail of CouponPayingSecurity.update *)
+Definition sec_holding_cost (inow : nat) (s : sec) : result t :=
+  if 0 <? s_pos s then
+    match s_cost_long s with
+    | Some cl => match cell_at inow cl with Some c => Ok (s_pos s * c) | None => Err ENanArith end
+    | None => Ok 0
+    end
+  else if s_pos s <? 0 then
+    match s_cost_short s with
+    | Some cs => match cell_at inow cs with Some c => Ok ((- s_pos s) * c) | None => Err ENanArith end
+    | None => Ok 0
+    end
+  else Ok 0.
+
+Definition sec_set_carry (inow : nat) (cpn hc : t) (s : sec) : sec :=
+  let s := set_s_coupon cpn s in
+  let s := set_s_holding_cost hc s in
+  let s := set_s_capital (cpn - hc) s in
+  let s := set_h_coupons (upd inow cpn (h_coupons s)) s in
+  set_h_hcosts (upd inow hc (h_hcosts s)) s.
+
 Definition sec_update_coupon (inow : nat) (s : sec) : result sec :=
   match s_coupons s with
   | None => Err ECouponsMissing
@@ -109,38 +145,27 @@ Definition sec_update_coupon (inow : nat) (s : sec) : result sec :=
            | None => if is_zero (s_pos s) then Ok 0 else Err ENanCouponOpen
            | Some c => Ok (s_pos s * c)
            end ;;
-    hc <- (if 0 <? s_pos s then
-             match s_cost_long s with
-             | Some cl => match cell_at inow cl with Some c => Ok (s_pos s * c) | None => Err ENanArith end
-             | None => Ok 0
-             end
-           else if s_pos s <? 0 then
-             match s_cost_short s with
-             | Some cs => match cell_at inow cs with Some c => Ok ((- s_pos s) * c) | None => Err ENanArith end
-             | None => Ok 0
-             end
-           else Ok 0) ;;
-    let s := set_s_coupon cpn s in
-    let s := set_s_holding_cost hc s in
-    let s := set_s_capital (cpn - hc) s in
-    let s := set_h_coupons (upd inow cpn (h_coupons s)) s in
-    let s := set_h_hcosts (upd inow hc (h_hcosts s)) s in
-    Ok s
+    hc <- sec_holding_cost inow s ;;
+    Ok (sec_set_carry inow cpn hc s)
   end.
 
+Definition sec_set_notl_pos (inow : nat) (s : sec) : sec :=
+  set_h_notls (upd inow (s_pos s) (h_notls s)) (set_s_notl (s_pos s) s).
+Definition sec_set_notl_zero (s : sec) : sec :=
+  set_h_notls (map (fun _ => 0) (h_notls s)) (set_s_notl 0 s).
+
 (* <class>.update, dispatching on the security class as the method resolution order does *)
+(* what the subclasses do after SecurityBase.update returns *)
+Definition sec_tail (inow : nat) (s : sec) : result sec :=
+  let s := if class_fi_notl (s_class s) then sec_set_notl_pos inow s else s in
+  s <- (if class_coupon (s_class s) then sec_update_coupon inow s else Ok s) ;;
+  Ok (if class_hedge (s_class s) then sec_set_notl_zero s else s).
+
 Definition sec_update (date : option nat) (inow : nat) (s : sec) : result sec :=
   if class_coupon (s_class s) && match s_coupons s with None => true | _ => false end
   then Err ECouponsMissing else
   s <- sec_update_base date inow s ;;
-  let s := if class_fi_notl (s_class s)
-           then set_h_notls (upd inow (s_pos s) (h_notls s)) (set_s_notl (s_pos s) s)
-           else s in
-  s <- (if class_coupon (s_class s) then sec_update_coupon inow s else Ok s) ;;
-  let s := if class_hedge (s_class s)
-           then set_h_notls (map (fun _ => 0) (h_notls s)) (set_s_notl 0 s)
-           else s in
-  Ok s.
+  sec_tail inow s.
 
 (* SecurityBase.outlay: (full_outlay, outlay, fee, bidoffer) *)
 Definition sec_outlay (comm : t -> t -> t) (s : sec) (q : t) (p : option t) : result (t * t * t * t) :=
@@ -290,35 +315,49 @@ Fixpoint upd_kids (ks : list node) (val notl bop cpn : t) : result (list node * 
 End Kids.
 
 (* children weights loop (phase 3) *)
+Definition kid_weight (fi : bool) (val notl : t) (c : node) : node :=
+  if skipped c then c else
+  if fi then set_weight (if negb (is_zero notl) then raw_notl c / notl else 0) c
+  else set_weight (if negb (is_zero val) then raw_value c / val else 0) c.
+
 Definition set_kid_weights (fi : bool) (val notl : t) (ks : list node) : list node :=
-  map (fun c =>
-         if skipped c then c else
-         if fi then set_weight (if negb (is_zero notl) then raw_notl c / notl else 0) c
-         else set_weight (if negb (is_zero val) then raw_value c / val else 0) c) ks.
+  map (kid_weight fi val notl) ks.
 
 (* phase 2: conditional write of value / notional / price *)
+Definition strat_set_value (inow : nat) (val notl bop : t) (g : strat) : strat :=
+  let g := set_g_value val g in
+  let g := set_hg_values (upd inow val (hg_values g)) g in
+  let g := set_g_notl notl g in
+  let g := set_hg_notls (upd inow notl (hg_notls g)) g in
+  if g_bo_set g
+  then set_hg_bopaid (upd inow bop (hg_bopaid g)) (set_g_bidoffer_paid bop g)
+  else g.
+
+(* the new index level: additive per unit notional (fixed income) or multiplicative *)
+Definition strat_new_price (g : strat) : result t :=
+  if g_fi g then
+    let pnl := g_value g - (g_last_value g + g_net_flows g) in
+    ret <- (if negb (is_zero (g_last_notl g)) then Ok (pnl / g_last_notl g * npar N)
+            else if negb (is_zero (g_notl g)) then Ok (pnl / g_notl g * npar N)
+            else if is_zero pnl then Ok 0 else Err EZeroNotl) ;;
+    Ok (g_last_price g + ret)
+  else
+    let bottom := g_last_value g + g_net_flows g in
+    ret <- (if negb (is_zero bottom) then Ok (g_value g / (g_last_value g + g_net_flows g) - 1)
+            else if is_zero (g_value g) then Ok 0 else Err EZeroBase) ;;
+    Ok (g_last_price g * (1 + ret)).
+
+Definition strat_set_price (inow : nat) (p : t) (g : strat) : strat :=
+  set_hg_prices (upd inow p (hg_prices g)) (set_g_price p g).
+
+Definition strat_changed (newpt : bool) (val notl : t) (g : strat) : bool :=
+  newpt || negb (is_zero (g_value g - val)) || negb (is_zero (g_notl g - notl)).
+
 Definition strat_write_value (newpt : bool) (inow : nat) (val notl bop : t) (g : strat) : result strat :=
-  if newpt || negb (is_zero (g_value g - val)) || negb (is_zero (g_notl g - notl)) then
-    let g := set_g_value val g in
-    let g := set_hg_values (upd inow val (hg_values g)) g in
-    let g := set_g_notl notl g in
-    let g := set_hg_notls (upd inow notl (hg_notls g)) g in
-    let g := if g_bo_set g
-             then set_hg_bopaid (upd inow bop (hg_bopaid g)) (set_g_bidoffer_paid bop g)
-             else g in
-    if g_fi g then
-      let pnl := g_value g - (g_last_value g + g_net_flows g) in
-      ret <- (if negb (is_zero (g_last_notl g)) then Ok (pnl / g_last_notl g * npar N)
-              else if negb (is_zero (g_notl g)) then Ok (pnl / g_notl g * npar N)
-              else if is_zero pnl then Ok 0 else Err EZeroNotl) ;;
-      let g := set_g_price (g_last_price g + ret) g in
-      Ok (set_hg_prices (upd inow (g_price g) (hg_prices g)) g)
-    else
-      let bottom := g_last_value g + g_net_flows g in
-      ret <- (if negb (is_zero bottom) then Ok (g_value g / (g_last_value g + g_net_flows g) - 1)
-              else if is_zero (g_value g) then Ok 0 else Err EZeroBase) ;;
-      let g := set_g_price (g_last_price g * (1 + ret)) g in
-      Ok (set_hg_prices (upd inow (g_price g) (hg_prices g)) g)
+  if strat_changed newpt val notl g then
+    let g := strat_set_value inow val notl bop g in
+    p <- strat_new_price g ;;
+    Ok (strat_set_price inow p g)
   else Ok g.
 
 (* "self._universe.loc[date, c] = self.children[c].price" for every strategy child *)
@@ -335,6 +374,11 @@ Definition has_strat_kids (ks : list node) : bool := existsb (fun c => negb (is_
 Definition all_skipped (ks : list node) : bool := forallb skipped ks.
 
 (* phase 4: universe columns, cash / fees / flows rows, paper trade *)
+Definition strat_set_rows (inow : nat) (g : strat) : strat :=
+  let g := set_hg_cash (upd inow (g_capital g) (hg_cash g)) g in
+  let g := set_hg_fees (upd inow (g_last_fee g) (hg_fees g)) g in
+  set_hg_flows (upd inow (g_net_flows g) (hg_flows g)) g.
+
 Definition strat_finish (date : option nat) (inow : nat) (newpt : bool) (g : strat) (kids : list node)
            (paper : option tree) : result (strat * option tree) :=
   g <- (if has_strat_kids kids then
@@ -343,16 +387,13 @@ Definition strat_finish (date : option nat) (inow : nat) (newpt : bool) (g : str
           | Some _ => Ok (set_g_ucols (write_ucols inow kids (g_ucols g)) g)
           end
         else Ok g) ;;
-  let g := set_hg_cash (upd inow (g_capital g) (hg_cash g)) g in
-  let g := set_hg_fees (upd inow (g_last_fee g) (hg_fees g)) g in
-  let g := set_hg_flows (upd inow (g_net_flows g) (hg_flows g)) g in
+  let g := strat_set_rows inow g in
   if g_paper_trade g then
     match paper with
     | None => Err EOther
     | Some p =>
       p <- (if newpt then paper_step date p else Ok p) ;;
-      let g := set_g_price (root_price p) g in
-      Ok (set_hg_prices (upd inow (g_price g) (hg_prices g)) g, Some p)
+      Ok (strat_set_price inow (root_price p) g, Some p)
     end
   else Ok (g, paper).
 
